@@ -42,6 +42,13 @@ func (h *Host) record(name string, args []int64, str string) int64 {
 	return s
 }
 
+// Reset forgets the events recorded so far (sequence numbers go on).
+func (h *Host) Reset() {
+	h.mu.Lock()
+	h.Log = nil
+	h.mu.Unlock()
+}
+
 func (h *Host) Events() []HostEvent {
 	h.mu.Lock()
 	defer h.mu.Unlock()
